@@ -3,7 +3,7 @@
    (pdf, plain, html, odg, odf, e-mail, pptx, ppt, odp, xlsx, xls, ods, epub, rtf); `units c` is
    [(u.get_metadata().unit_number, u.get_text()) for u in c.iterate_units()], `full_text c` is c.get_full_text(). *)
 From Coq Require Import ZArith List Bool Sorted.
-From S2T Require Import Lib.PyStr C03.Lib C03.Model C03.Proofs C03.Extract C03.Docx C03.ProofsX.
+From S2T Require Import Lib.PyStr C03.Lib C03.Model C03.Proofs C03.Extract C03.Docx C03.ProofsX C03.ProofsM.
 Import ListNotations.
 Open Scope Z_scope.
 
@@ -204,6 +204,20 @@ Print Assumptions C03_rtf_page_positions_partial.
 Example C03_rtf_partial_hyp_satisfiable : no_blank_page (fun x => x) [s "a"; s " b "] = true.
 Proof. reflexivity. Qed.
 Print Assumptions C03_rtf_partial_hyp_satisfiable.
+
+(* ---------------------------------------------------------------- mbox *)
+(* one message per "From " separator line, each holding exactly its own body lines, when no body line matches
+   the separator pattern (escaped bodies); lines = split_lines of the mailbox bytes *)
+Theorem C03_mbox_one_per_message :
+  forall msgs : list mbox_msg, forallb msg_ok msgs = true ->
+    mbox_collect (flat msgs) false [] = bodies msgs.
+Proof. exact collect_all. Qed.
+Print Assumptions C03_mbox_one_per_message.
+
+Example C03_mbox_hyp_satisfiable :
+  forallb msg_ok [(s "From a@b Mon Jan  1 00:00:00 2024" ++ [NL], [s "Subject: x" ++ [NL]; s ">From me 2024" ++ [NL]])] = true.
+Proof. vm_compute. reflexivity. Qed.
+Print Assumptions C03_mbox_hyp_satisfiable.
 
 (* ---------------------------------------------------------------- DOCX heading sections *)
 (* REFUTED (three findings): every non-empty body paragraph is covered by a unit's heading path or lines *)
